@@ -110,7 +110,10 @@ Definition g_add_all (s : state) : res := add_names s (status_keys s).
 (* Remove(path): a file (or a missing path) must be in the index; a directory
    removes the tracked files FOUND IN THE WORKTREE below it, nothing else *)
 Definition g_rm (s : state) (p : path) : res :=
-  if is_dir_wt s p && negb (has_file s p) then
+  (* below a file ("not a directory") or a symlink (refused by the worktree filesystem): the
+     entry is dropped in memory, deleting the file fails, the index is not saved *)
+  if existsb (fun f => under (wf_path f) p) (st_wt s) then RErr s
+  else if is_dir_wt s p && negb (has_file s p) then
     let victims := filter (fun q => under p q && is_some (find_i (st_index s) q)) (map wf_path (st_wt s)) in
     ROk (with_both s (fold_left idx_remove victims (st_index s)) (fold_left wt_remove victims (st_wt s)))
   else match find_i (st_index s) p with
